@@ -54,6 +54,19 @@ func byteSpaces(r *explore.Run, opt explore.Options, body func(c *explore.Ctx, s
 		})
 	}
 	lexemeSpace(r, opt, body)
+	// S2b: every literal prefix x quote form x body (each escape kind, valid and invalid) x what follows
+	o := opt
+	o.Space = "S2b/literal-matrix"
+	o.MaxDev = -1
+	o.SplitLen = 2
+	o.Bound = fmt.Sprintf("%d prefixes x %d quote forms x %d bodies x %d suffixes", len(spaces.LitPrefixes), len(spaces.LitQuotes), len(spaces.LitBodies), len(spaces.LitSuffixes))
+	r.Explore(o, func(c *explore.Ctx) {
+		p := spaces.LitPrefixes[c.ChooseFree(len(spaces.LitPrefixes))]
+		q := spaces.LitQuotes[c.ChooseFree(len(spaces.LitQuotes))]
+		b := spaces.LitBodies[c.ChooseFree(len(spaces.LitBodies))]
+		sfx := spaces.LitSuffixes[c.ChooseFree(len(spaces.LitSuffixes))]
+		body(c, p+q+b+q+sfx)
+	})
 }
 
 // lexemeSpace is S2: sequences of lexemes glued with "", " ", "\n".
